@@ -139,6 +139,30 @@ type objMeshReading struct {
 	normals   []vector3.Float64
 	uvs       []vector2.Float64
 	meshMats  []modeling.MeshMaterial
+
+	// Whether any corner of the group referenced a normal / texture
+	// coordinate. Faces of one group may mix the v, v/vt, v//vn and v/vt/vn
+	// forms; every vertex still needs an entry in every attribute array.
+	hasNormals bool
+	hasUVs     bool
+}
+
+func (omr *objMeshReading) addNormal(readNormals []vector3.Float64, vn int) {
+	if vn == -1 {
+		omr.normals = append(omr.normals, vector3.Zero[float64]())
+		return
+	}
+	omr.hasNormals = true
+	omr.normals = append(omr.normals, readNormals[vn])
+}
+
+func (omr *objMeshReading) addUV(readUVs []vector2.Float64, vt int) {
+	if vt == -1 {
+		omr.uvs = append(omr.uvs, vector2.Zero[float64]())
+		return
+	}
+	omr.hasUVs = true
+	omr.uvs = append(omr.uvs, readUVs[vt])
 }
 
 func newObjMeshReading() objMeshReading {
@@ -162,11 +186,11 @@ func (omr objMeshReading) toMesh() ObjMesh {
 		SetFloat3Attribute(modeling.PositionAttribute, omr.verts).
 		SetMaterials(omr.meshMats)
 
-	if len(omr.normals) > 0 {
+	if omr.hasNormals {
 		mesh = mesh.SetFloat3Attribute(modeling.NormalAttribute, omr.normals)
 	}
 
-	if len(omr.uvs) > 0 {
+	if omr.hasUVs {
 		mesh = mesh.SetFloat2Attribute(modeling.TexCoordAttribute, omr.uvs)
 	}
 	return ObjMesh{
@@ -309,13 +333,8 @@ func ReadMesh(in io.Reader) ([]ObjMesh, []string, error) {
 
 				workingGeom.verts = append(workingGeom.verts, readVerts[v])
 
-				if vn != -1 {
-					workingGeom.normals = append(workingGeom.normals, readNormals[vn])
-				}
-
-				if vt != -1 {
-					workingGeom.uvs = append(workingGeom.uvs, readUVs[vt])
-				}
+				workingGeom.addNormal(readNormals, vn)
+				workingGeom.addUV(readUVs, vt)
 			}
 
 			var p2 int
@@ -331,13 +350,8 @@ func ReadMesh(in io.Reader) ([]ObjMesh, []string, error) {
 
 				workingGeom.verts = append(workingGeom.verts, readVerts[v])
 
-				if vn != -1 {
-					workingGeom.normals = append(workingGeom.normals, readNormals[vn])
-				}
-
-				if vt != -1 {
-					workingGeom.uvs = append(workingGeom.uvs, readUVs[vt])
-				}
+				workingGeom.addNormal(readNormals, vn)
+				workingGeom.addUV(readUVs, vt)
 			}
 
 			var p3 int
@@ -353,13 +367,8 @@ func ReadMesh(in io.Reader) ([]ObjMesh, []string, error) {
 
 				workingGeom.verts = append(workingGeom.verts, readVerts[v])
 
-				if vn != -1 {
-					workingGeom.normals = append(workingGeom.normals, readNormals[vn])
-				}
-
-				if vt != -1 {
-					workingGeom.uvs = append(workingGeom.uvs, readUVs[vt])
-				}
+				workingGeom.addNormal(readNormals, vn)
+				workingGeom.addUV(readUVs, vt)
 			}
 
 			workingGeom.tris = append(workingGeom.tris, p1, p2, p3)
